@@ -18,6 +18,9 @@
                                  context allows limited connections
             obs (res dp use h lp ninv hreg hlp)^n  u (reg lp)^u  KNOW SCOPE
        6 slot how                close/reset both ends of held stream    obs SCOPE
+       8 slot side q             SetProtocol(q) once more on the dialer's (side 0) /
+                                 listener's (1) end of held stream slot     obs err dl ll
+                                 (err 1 = refused; dl ll = Protocol() of both ends after; -1s: not held)
        7 dir wait                the connection is closed, a new one is made below the
                                  host (dir 0 dialer's swarm dials, 1 listener dials);
                                  wait 0: the next op races identify         obs MUX SCOPE
@@ -39,11 +42,14 @@ Local Open Scope Z_scope.
              or a new registration under that name)
      m_nreg  number of registrations (names the closures)
      m_kn    what the dialer knew before the next open (last observed)
-     m_sc    last observed scope vector *)
-Record mon := mkM { m_live : list hent; m_nreg : Z; m_kn : list Z; m_sc : list Z }.
+     m_sc    last observed scope vector
+     m_held  streams obtained and not yet closed: slot, negotiated protocol
+     m_nslot number of streams obtained so far (names the slots) *)
+Record mon := mkM { m_live : list hent; m_nreg : Z; m_kn : list Z; m_sc : list Z;
+                    m_held : list (Z * Z); m_nslot : Z }.
 
 Definition zeros (n : Z) : list Z := map (fun _ => 0) (universe n).
-Definition mon_init (U : Z) : mon := mkM [] 0 [] (zeros U ++ zeros U).
+Definition mon_init (U : Z) : mon := mkM [] 0 [] (zeros U ++ zeros U) [] 0.
 
 Definition live_add (l : list hent) (name : Z) (acc : list Z) (reg : Z) : list hent :=
   filter (fun e => negb (h_name e =? name)) l ++ [mkH name acc reg].
@@ -115,28 +121,48 @@ Definition batch_ok (U : Z) (has_scope : bool) (lim_in : Z -> Z) (m : mon)
    count_if (fun x => common (m_live m) (fst x) && negb (obtained (snd x))) (combine reqss rs)) &&
   (negb has_scope || scope_ok U (m_sc m) sc' rs).
 
+(* the obtained streams of a batch take the next slots, in order *)
+Fixpoint slots_of (n : Z) (rs : list ores) : list (Z * Z) :=
+  match rs with
+  | [] => []
+  | r :: rest => if obtained r then (n, o_dp r) :: slots_of (n + 1) rest else slots_of n rest
+  end.
+
 (* one monitored step: None = the observation violates the property *)
 Definition mon_step (U : Z) (has_scope : bool) (lim_in : Z -> Z) (m : mon) (o : op) (x : obs)
   : option mon :=
   match o, x with
   | OAdd name, _ =>
-      Some (mkM (live_add (m_live m) name [name] (m_nreg m)) (m_nreg m + 1) (m_kn m) (m_sc m))
+      Some (mkM (live_add (m_live m) name [name] (m_nreg m)) (m_nreg m + 1) (m_kn m) (m_sc m)
+                (m_held m) (m_nslot m))
   | OAddMatch name acc, _ =>
-      Some (mkM (live_add (m_live m) name acc (m_nreg m)) (m_nreg m + 1) (m_kn m) (m_sc m))
+      Some (mkM (live_add (m_live m) name acc (m_nreg m)) (m_nreg m + 1) (m_kn m) (m_sc m)
+                (m_held m) (m_nslot m))
   | ORemove name, _ =>
-      Some (mkM (live_remove (m_live m) name) (m_nreg m) (m_kn m) (m_sc m))
-  | OKnow k, _ => Some (mkM (m_live m) (m_nreg m) k (m_sc m))
+      Some (mkM (live_remove (m_live m) name) (m_nreg m) (m_kn m) (m_sc m) (m_held m) (m_nslot m))
+  | OKnow k, _ => Some (mkM (m_live m) (m_nreg m) k (m_sc m) (m_held m) (m_nslot m))
   | OBatch opens, ObBatch rs un kn' sc' =>
       if batch_ok U has_scope lim_in m (map q_reqs opens) rs un sc'
-      then Some (mkM (m_live m) (m_nreg m) kn' (if has_scope then sc' else m_sc m))
+      then Some (mkM (m_live m) (m_nreg m) kn' (if has_scope then sc' else m_sc m)
+                     (m_held m ++ slots_of (m_nslot m) rs) (m_nslot m + count_if obtained rs))
       else None
-  | OClose _ _, ObClose sc' =>
-      Some (mkM (m_live m) (m_nreg m) (m_kn m) (if has_scope then sc' else m_sc m))
+  | OClose slot _, ObClose sc' =>
+      Some (mkM (m_live m) (m_nreg m) (m_kn m) (if has_scope then sc' else m_sc m)
+                (filter (fun x => negb (fst x =? slot)) (m_held m)) (m_nslot m))
+  | ORelabel slot _ _, ObRelabel _ dl ll =>
+      (* the stream keeps reporting the protocol it was negotiated for and is
+         attached to, on both ends, whatever is tried on it afterwards (only
+         judged where a resource manager decides about SetProtocol) *)
+      match find (fun x => fst x =? slot) (m_held m) with
+      | Some (_, p) =>
+          if negb has_scope || ((dl =? p) && (ll =? p)) then Some m else None
+      | None => Some m
+      end
   | OReconnect _ _, ObRe mx sc' =>
       (* a fresh connection: what the dialer knows when NewStream looks is what
          identify delivers on it = what the listener advertises now (observed);
          older knowledge is no excuse any more *)
-      Some (mkM (m_live m) (m_nreg m) mx (if has_scope then sc' else m_sc m))
+      Some (mkM (m_live m) (m_nreg m) mx (if has_scope then sc' else m_sc m) [] (m_nslot m))
   | _, _ => None
   end.
 
@@ -279,6 +305,8 @@ Fixpoint decode_ops (U : Z) (l : list Z) (fuel : nat) : option (list (op * obs))
         | Some (sc, r1) => option_map (cons (OClose slot how, ObClose sc)) (decode_ops U r1 f)
         | None => None
         end
+    | 8 :: slot :: side :: q :: err :: dl :: ll :: r =>
+        option_map (cons (ORelabel slot side q, ObRelabel err dl ll)) (decode_ops U r f)
     | 7 :: dir :: wait :: r =>
         match take_list r with
         | Some (mx, r0) =>
@@ -306,7 +334,7 @@ Definition decode_case (l : list Z) : option (header * list (op * obs)) :=
           match take_n U r1 with
           | Some (ll, r2) =>
               match decode_ops U r2 (S (length r2)) with
-              | Some tr => Some (mkHd (Z.testbit flags 0) U (mkCfg (vecfn ld) (vecfn ll) (Z.testbit flags 1)), tr)
+              | Some tr => Some (mkHd (Z.testbit flags 0) U (mkCfg (vecfn ld) (vecfn ll) (Z.testbit flags 1) (Z.testbit flags 0)), tr)
               | None => None
               end
           | None => None
@@ -381,6 +409,7 @@ Definition obs_eqb (has_scope : bool) (m x : obs) : bool :=
       list_eqb ores_eqb rs rs' && list_eqb pair_eqb (sort_pairs un) (sort_pairs un') &&
       zlist_eqb kn kn' && (negb has_scope || zlist_eqb sc sc')
   | ObClose sc, ObClose sc' => negb has_scope || zlist_eqb sc sc'
+  | ObRelabel a b c, ObRelabel a' b' c' => (a =? a') && (b =? b') && (c =? c')
   | ObRe mx sc, ObRe mx' sc' => zlist_eqb mx mx' && (negb has_scope || zlist_eqb sc sc')
   | _, _ => false
   end.
@@ -393,6 +422,7 @@ Definition obs_code (x : obs) : list Z :=
       3 :: flat_map (fun r => [o_res r; o_dp r; o_use r; o_h r; o_lp r; o_ninv r]) rs
         ++ [-1] ++ flat_map (fun p => [fst p; snd p]) un ++ [-1] ++ kn ++ [-1] ++ sc
   | ObClose sc => 4 :: sc
+  | ObRelabel a b c => [6; a; b; c]
   | ObRe mx sc => 5 :: mx ++ [-1] ++ sc
   end.
 
